@@ -59,6 +59,7 @@ type LockDecl struct {
 	Protects  []string
 	Invariant []Clause
 	Rely      []Clause
+	Props     []string // `prop C01` inside the lock block: the concurrency model of this lock is used only when checking these properties (elsewhere the critical sections are treated as atomic, sequential code)
 }
 
 type FuncContract struct {
@@ -88,6 +89,9 @@ type FuncContract struct {
 	// invariants of their loops, stated over this function's variables ("<callee>#<ordinal>").
 	Inlines     []string
 	InlineLoops map[string]*LoopContract
+	// AtLock: conditions that must hold whenever this function acquires the named mutex field
+	// (`at-lock eventBufLock: held(ei.cacheLock)`): lock nesting required by an atomicity argument
+	AtLock map[string][]Clause
 }
 
 func (fc *FuncContract) FullKey() string { return fc.Pkg + "::" + fc.Key }
@@ -102,7 +106,7 @@ type Contracts struct {
 	Ghosts map[string]ParamDecl // ghost globals: name -> type
 }
 
-var kwRe = regexp.MustCompile(`^(func|trusted func|pure|inline|pred|specfn|lock|ghost|requires|ensures|modifies|let|loop|invariant|prop|check|opt|axiom|rely|havoc|protects|recv|callsite|witness|ghostset|inlines)\b`)
+var kwRe = regexp.MustCompile(`^(func|trusted func|pure|inline|pred|specfn|lock|ghost|requires|ensures|modifies|let|loop|invariant|prop|check|opt|axiom|rely|havoc|protects|recv|callsite|witness|ghostset|inlines|at-lock)\b`)
 
 func implicit(text string) string { return strings.TrimSpace(text) }
 
@@ -348,10 +352,27 @@ func (cs *Contracts) parseFile(root, file string) error {
 			}
 			curLoop.Havoc = append(curLoop.Havoc, strings.Fields(d.text)...)
 		default:
+			if cur == nil && curLock != nil && d.kw == "prop" {
+				curLock.Props = append(curLock.Props, strings.Fields(strings.ReplaceAll(d.text, ",", " "))...)
+				break
+			}
 			if cur == nil {
 				return fmt.Errorf("%s: %s outside func", d.pos, d.kw)
 			}
 			switch d.kw {
+			case "at-lock":
+				kv := strings.SplitN(d.text, ":", 2)
+				if len(kv) != 2 {
+					return fmt.Errorf("%s: at-lock <mutex field>: <condition>", d.pos)
+				}
+				c, err := parseClause(kv[1], d.pos)
+				if err != nil {
+					return err
+				}
+				if cur.AtLock == nil {
+					cur.AtLock = map[string][]Clause{}
+				}
+				cur.AtLock[strings.TrimSpace(kv[0])] = append(cur.AtLock[strings.TrimSpace(kv[0])], c)
 			case "inlines":
 				for _, c := range splitTopComma(d.text) {
 					cur.Inlines = append(cur.Inlines, strings.TrimSpace(c))
